@@ -5,7 +5,7 @@ the VR -> {16-bit, 32-bit length form} tables (all 34 VRs x 5 sites) against ref
 layout of every header form (offsets, widths, buffer sizes, reported byte counts), endianness purity of
 each codec, the range guard on the 16-bit length cast, and the VR two-letter code bijection.
 """
-from . import facts, hirq as H, mirq as M, common as C
+from . import facts, hirq as H, mirq as M, common as C, guards as G
 
 LEVEL_TEXT = ("Exhaustive over the finite tables: every VR variant x every header site, every layout slot of every "
               "header form, every ByteOrder call of each codec. Tags and lengths are opaque to the layout, so nothing "
@@ -302,36 +302,11 @@ def run(chk, tier):
         chk.expect(len(casts) >= 1, "u16-length-guard", f"enc:{key}", "cast-present", ">=1 u32->u16 cast", len(casts))
         dom = M.dominators(f)
         rc = M.ret_classes(f)
-        for bb, j, s in casts:
+        for k, (bb, j, s) in enumerate(casts):
             src = M.origin(f, s["r"]["o"])
-            ok = False
-            why = "no dominating guard"
-            for d in sorted(dom[bb]):
-                t = f["blocks"][d]["t"]
-                if t["t"] != "switch" or t["ty"] != "bool":
-                    continue
-                cl = M.op_local(t["o"])
-                defs = [x for x in M.defs_of(f, cl) if x[0] == "stmt"] if cl is not None else []
-                if len(defs) != 1 or defs[0][3]["r"]["rv"] != "bin":
-                    continue
-                r = defs[0][3]["r"]
-                a, b = M.origin(f, r["a"]), M.origin(f, r["b"])
-                is_max = lambda o: o[0] == "const" and ("u16>::MAX" in str(o[1]) or str(o[1]) == "65535")
-                if r["op"] == "Gt" and a == src and is_max(b):
-                    # true-branch (else target) must not reach the cast and must reach an Err return
-                    true_bb = t["else"]
-                    false_bb = [v[1] for v in t["vals"] if v[0] == "0"][0]
-                    reach_true = M.reachable(f, true_bb)
-                    if bb not in reach_true and (false_bb in dom[bb] or false_bb == bb):
-                        errs = [x for x in reach_true if rc.get(x) == "err"]
-                        oks = [x for x in reach_true if rc.get(x) == "ok"]
-                        if errs and not oks:
-                            ok = True
-                            why = f"guard bb{d}: length > u16::MAX -> Err"
-                        else:
-                            why = f"guard bb{d} found but out-of-range branch does not return Err only"
-            chk.expect(ok, "u16-length-guard", f"enc:{key}", f"cast@{s['l']}", "dominated by `length > u16::MAX => return Err`", why,
-                       loc=f"{f['loc']['f']}:{s['l']}")
+            ok, why = G.upper_bound_guard(f, bb, src, 65535, dom, rc)
+            chk.expect(ok, "u16-length-guard", f"enc:{key}", f"cast#{k}", "dominated by a comparison bounding the length by u16::MAX whose "
+                       "out-of-range edge returns Err", why, loc=f"{f['loc']['f']}:{s['l']}")
     # no narrowing casts of the 32-bit length anywhere else in the encoders' header paths
     for key, (ty, _, _) in ENCODERS.items():
         for fn in ["encode_element_header"] + list(ITEM_TAGS):
